@@ -27,9 +27,12 @@ RULE = ("(value class, data or value, allow_short_write / force_unlock / ignore_
         "falsy objects of 11 other styles, falsy ones passed explicitly -, initial lock byte, "
         "addressing kind, unit variant, fault (query index, kind), image) tuples: per value class an enumeration of data "
         "patterns x lock byte x addressing, every unit variant (each shorter last location, several unlock values, DTR0 "
-        "stuck), every fault kind at every write index and at the DTR0 check, every wrong length; plus Hypothesis-"
+        "stuck), every fault kind at every write index and at the DTR0 check, every wrong length, value-level writes of "
+        "what the value cannot hold (ints just and far below / above what its locations can represent, floats, strings, "
+        "None, bytes, lists for plain numbers; over-long, non-ASCII and non-str arguments for strings); plus Hypothesis-"
         "generated tuples; distinct by construction / by fingerprint; non-trivial = writable value with a fault, a "
-        "non-standard unit, a lockable or multi-byte value, a short write, or a refusal (read-only / wrong length); "
+        "non-standard unit, a lockable or multi-byte value, a short write, or a refusal (read-only / wrong length / "
+        "unstorable value); "
         "several writes in flight: 2 or 3 such tuples (mostly one value class, different data / unit image / addressing) "
         "on separate buses and the order in which they advance command by command (listed orders + Hypothesis-drawn), "
         "non-trivial = the writes really overlap in time")
@@ -59,6 +62,13 @@ ASSUMPTIONS = [
     "value-level writes (MemoryValue.write) are exercised only for plain numbers (table kind uint / cct), ASCII strings "
     "and the MASK / TMASK literals of numeric values - the reference encoding is big-endian / ASCII + NUL if shorter / "
     "the all-ones pattern; scaled and offset classes are not claimed to encode (see DESIGN 3, 'not counted')",
+    "a value-level write whose argument cannot be turned into 'a byte string of the permitted length' for the value - an "
+    "int outside what its locations represent (big-endian, two's complement if signed), a non-int other than a supported "
+    "MASK / TMASK literal for a plain number (a bool is an int), a str longer than the field or with characters beyond "
+    "ASCII, a non-str for a string; for scaled / offset numbers only ints beyond any scale (|v| >= 256**(n+2)), nan / "
+    "infinity and non-numbers - must be refused (any exception) with nothing sent and memory untouched, also with "
+    "ignore_feedback / force_unlock: storing other data instead is a silent failure.  The unchanged library refuses all of "
+    "these; in-range numbers outside a value's min / max limits are accepted by it and not judged",
     "a shorter bank never hides the lock byte of a lockable value (last accessible location >= 3 there)",
     "write sequences in flight at the same time on separate buses (one driver per DALI line in one process) are "
     "independent: each must satisfy the statement on its own unit, end the way it ends alone and leave the same memory",
@@ -123,7 +133,7 @@ def option_kwargs(case):
     spell = case.get("spell") or {}
     kw = {}
     for field, name in OPTIONS:
-        if field == "asw" and case["mode"] == "value":
+        if field == "asw" and case["mode"] in ("value", "badvalue"):
             continue                    # value-level writes decide about short writes themselves
         truth = bool(case.get(field))
         if spell.get(field):
@@ -135,8 +145,9 @@ def option_kwargs(case):
 
 def describe(case):
     s = "%s.%s(%s%s) via %s address %d, lock byte initially 0x%02x" % (
-        case["key"], "write" if case["mode"] == "value" else "write_raw",
-        repr(case["value"]) if case["mode"] == "value" else "[" + M.hexs(case["data"]) + "]",
+        case["key"], "write" if case["mode"] in ("value", "badvalue") else "write_raw",
+        repr(case["value"]) if case["mode"] == "value" else _short_repr(bad_arg(case["arg"])) if case["mode"] == "badvalue"
+        else "[" + M.hexs(case["data"]) + "]",
         "".join(", %s=%r" % (k, v) for k, v in option_kwargs(case).items()), case["addr"], case["short"], case["lock"])
     v = case.get("variant") or ["standard"]
     if v[0] != "standard":
@@ -149,9 +160,175 @@ def describe(case):
 LAST_OUTCOME = [None]
 
 
+# ------------------------------------------------- value-level writes that cannot be stored ----
+def _short_repr(v):
+    r = repr(v)
+    return r if len(r) <= 60 else r[:28] + "..." + r[-28:]
+
+
+def bad_arg(spec):
+    """JSON form -> the object handed to MemoryValue.write: ["int", n] | ["float", x | "nan" | "inf" | "-inf"] |
+    ["str", s] | ["none"] | ["bool", b] | ["bytes" | "bytearray", hex] | ["list" | "tuple", [...]] | ["decimal", text] |
+    ["fraction", [p, q]] | ["complex", [re, im]]"""
+    t = spec[0]
+    if t == "int":
+        if isinstance(spec[1], bool) or not isinstance(spec[1], int):
+            raise ValueError("bad-value spec %r" % (spec,))
+        return spec[1]
+    if t == "float":
+        return float(spec[1])
+    if t == "str":
+        if not isinstance(spec[1], str):
+            raise ValueError("bad-value spec %r" % (spec,))
+        return spec[1]
+    if t == "none":
+        return None
+    if t == "bool":
+        return bool(spec[1])
+    if t == "bytes":
+        return bytes.fromhex(spec[1])
+    if t == "bytearray":
+        return bytearray.fromhex(spec[1])
+    if t == "list":
+        return list(spec[1])
+    if t == "tuple":
+        return tuple(spec[1])
+    if t == "decimal":
+        from decimal import Decimal
+        return Decimal(spec[1])
+    if t == "fraction":
+        from fractions import Fraction
+        return Fraction(spec[1][0], spec[1][1])
+    if t == "complex":
+        return complex(spec[1][0], spec[1][1])
+    raise ValueError("bad-value spec %r" % (spec,))
+
+
+def number_range(row):
+    """The numbers that fit the value's locations at all (big-endian, two's complement if signed)."""
+    bits = 8 * row["width"]
+    return (-(1 << (bits - 1)), (1 << (bits - 1)) - 1) if row["signed"] else (0, (1 << bits) - 1)
+
+
+def bad_category(row, spec):
+    """Why the argument cannot be stored in this value - or None if the statement (as read in ASSUMPTIONS) does not say
+    that it cannot."""
+    kind, w, t = row["kind"], row["width"], spec[0]
+    if kind == "string":
+        if t == "str":
+            if any(ord(c) > 0x7F for c in spec[1]):
+                return "string-not-ascii"
+            if len(spec[1]) > w:
+                return "string-too-long"
+            return None
+        return "not-a-string"
+    if kind in ("uint", "cct"):
+        if t == "int":
+            lo, hi = number_range(row)
+            return "int-out-of-range" if spec[1] < lo or spec[1] > hi else None
+        if t == "bool":
+            return None                 # a bool is an int
+        if t == "str" and ((spec[1] == "MASK" and row["mask"]) or (spec[1] == "TMASK" and row["tmask"])):
+            return None
+        return "not-an-int"
+    if kind in ("fixed", "temp"):
+        # scaled / offset numbers: only what no scale factor or offset of this library brings into range, or no number
+        if t == "int":
+            return "int-out-of-range" if abs(spec[1]) >= 1 << (8 * w + 16) else None
+        if t == "float":
+            return "not-a-number" if spec[1] in ("nan", "inf", "-inf") else None
+        if t in ("bool", "decimal", "fraction"):
+            return None
+        if t == "str" and spec[1] in ("MASK", "TMASK"):
+            return None
+        return "not-a-number"
+    return None
+
+
+def bad_values_for(row, seed):
+    """Arguments of MemoryValue.write that cannot be stored in this value (see bad_category)."""
+    kind, w = row["kind"], row["width"]
+    out = []
+    if kind == "string":
+        out += [["str", "x" * (w + 1)], ["str", "x" * (w + 7)], ["str", "ab" * w], ["str", "\u00e9"], ["str", "\u0080"],
+                ["str", "\u00ff"], ["str", "x" * (w - 1) + "\u00e9"], ["str", "\u20ac" + "x" * (w - 1)], ["str", "A\u0100"],
+                ["str", "\u65e5\u672c"[:w]], ["str", "x" * (w // 2) + "\u0080" + "y"],
+                ["int", 65], ["int", 0], ["none"], ["float", 1.5], ["bool", True], ["bool", False],
+                ["bytes", b"abc"[:w].hex()], ["bytes", ""], ["bytearray", b"ab"[:w].hex()], ["list", ["a", "b"][:w]],
+                ["list", [65]], ["tuple", ["a"]]]
+    elif kind in ("uint", "cct"):
+        lo, hi = number_range(row)
+        full = 1 << (8 * w)
+        r = int.from_bytes(bytes(M.prng(seed + 9, w)), "big")
+        ints = [lo - 1, lo - 5, lo - full, -full, -full - 1, -1, -128, -255, -256, -(full >> 1) - 1, hi + 1, hi + 6, hi + full,
+                full, full + 5, full + r, 2 * full - 1, full << 8, (full << 8) + r, 10 ** 30, -10 ** 30, 1 << 64, -(1 << 63) - 1]
+        out += [["int", v] for v in ints]
+        out += [["float", 0.0], ["float", 1.0], ["float", 0.5], ["float", -1.0], ["float", float(min(hi, 1 << 52))], ["float", "nan"],
+                ["float", "inf"], ["str", "0"], ["str", "1"], ["str", ""], ["str", "0x01"], ["str", "one"], ["str", "MASK"],
+                ["str", "TMASK"], ["none"], ["bytes", "01" * w], ["bytes", ""], ["bytearray", "01" * w], ["list", [1] * w],
+                ["list", []], ["tuple", [0] * w], ["decimal", "1.5"], ["fraction", [1, 2]], ["complex", [1, 0]]]
+    elif kind in ("fixed", "temp"):
+        out += [["int", 10 ** 30], ["int", -10 ** 30], ["int", 1 << (8 * w + 16)], ["int", -(1 << (8 * w + 16))], ["float", "nan"],
+                ["float", "inf"], ["float", "-inf"], ["str", "abc"], ["str", ""], ["none"], ["bytes", "01" * w], ["list", [1] * w],
+                ["complex", [1, 0]]]
+    seen, res = [], []
+    for spec in out:
+        if spec not in seen and bad_category(row, spec) is not None:
+            seen.append(spec)
+            res.append(spec)
+    return res
+
+
+def case_badvalue(case):
+    """{"mode": "badvalue", "key": ..., "arg": spec, addressing, lock, image, options}: MemoryValue.write with an argument
+    that cannot be stored in the value: the write must be refused - any exception - with nothing sent and memory
+    untouched; never completed with some other data stored."""
+    L = M.lib()
+    row = M.all_rows()[case["key"]]
+    cls = L["classes"].get(case["key"])
+    if cls is None:
+        return []
+    cat = bad_category(row, case["arg"])
+    if cat is None or not writable_row(row):
+        raise ValueError("not an unstorable argument for a writable value: %r" % (case,))
+    spec = M.bankspec(row["bankobj"])
+    w = M.World(row["bankobj"], case["addr"], case["short"], case["image"], 0xFE, [], case["lock"])
+    bus = M.MemBus(w.units, fault=None, max_commands=60 + 6 * len(row["locs"]), watch=w.target)
+    where = describe(case)
+    addr = M.make_addr(case["addr"], case["short"])
+    value = bad_arg(case["arg"])
+    err = None
+    try:
+        bus.run(cls.write(addr, value, **option_kwargs(case)))
+    except NonTermination:
+        return [("C10:nontermination", "%s: more than %d commands" % (where, bus.max_commands))]
+    except Exception as e:  # noqa: any exception is a refusal
+        if library_frame(e.__traceback__) is None:
+            raise
+        err = e
+    LAST_OUTCOME[0] = "outcome:refused-unstorable-value"
+    out = []
+    before, after = w.image, w.bank.contents
+    if err is None:
+        locs = row["locs"]
+        out.append(("C10:unstorable-value-accepted:" + cat, "%s returned normally after %d commands although the argument cannot "
+                    "be stored in the value's %d location(s) (%s); they held [%s] and now hold [%s]"
+                    % (where, bus.n, len(locs), cat, M.hexs([before[a] for a in locs]), M.hexs([after[a] for a in locs]))))
+        LAST_OUTCOME[0] = "outcome:unstorable-value-accepted"
+        return out
+    if bus.n > 0:
+        out.append(("C10:sent-before-refusing", "%s: %d command(s) were sent before the write was refused with %r (%s)"
+                    % (where, bus.n, err, cat)))
+    if after != before or w.others_changed() or (spec["has_lock_byte"] and after[2] != before[2]):
+        out.append(("C10:refused-write-changed-memory", "%s: memory changed although the write was refused with %r" % (where, err)))
+    return out
+
+
 def run_case(case):
     if case.get("kind") == "interleaved":
         return case_interleaved(case)
+    if case.get("mode") == "badvalue":
+        return case_badvalue(case)
     g = _case_steps(case)
     try:
         bus, seq = next(g)
@@ -442,6 +619,9 @@ def features(case):
         f.append("wrong-length")
     if case["mode"] == "value":
         f.append("value-level")
+    if case["mode"] == "badvalue":
+        f.append("value-level")
+        f.append("unstorable-value:%s" % bad_category(row, case["arg"]))
     if case.get("ignore_feedback"):
         f.append("ignore-feedback")
     if case.get("force_unlock"):
@@ -456,7 +636,7 @@ def is_nontrivial(case):
         # known once the case has run: did the sequences overlap in time at all?
         return LAST_INTER[0] is not None and LAST_INTER[0][0] == id(case) and LAST_INTER[0][1]
     f = features(case)
-    return any(x.startswith(("fault:", "variant:")) or x in ("lockable", "multi-byte", "short-write", "wrong-length",
+    return any(x.startswith(("fault:", "variant:", "unstorable-value:")) or x in ("lockable", "multi-byte", "short-write", "wrong-length",
                                                              "read-only") for x in f)
 
 
@@ -474,6 +654,8 @@ def _case(key, data, addr="gear", short=5, lock=0xFF, mode="raw", value=None, as
         c["spell"] = dict(spell)        # option field -> style in which it is handed over (see option_kwargs)
     if mode == "value":
         c["value"] = value
+    elif mode == "badvalue":
+        c["arg"] = list(value)
     else:
         c["data"] = list(data)
     return c
@@ -634,6 +816,12 @@ def _shard_keys(arg):
         for vi, v in enumerate(values_for(row, seed)):
             for addr in ADDRS:
                 run(C(None, mode="value", value=v, addr=addr, lock=LOCKS[vi % 3]), "value-level")
+        # value-level writes of what the value cannot hold: numbers beyond its locations, other types, over-long or
+        # non-ASCII text
+        for bi, spec in enumerate(bad_values_for(row, seed)):
+            k = bi + ki + seed
+            fl = [{}, {}, {"ignore_feedback": True}, {"force_unlock": 2 not in locs}, {}][k % 5]
+            run(C(None, mode="badvalue", value=spec, addr=ADDRS[k % 3], lock=LOCKS[(k // 3) % 3], **fl), "unstorable-value")
         # unit variants
         variants = [["no_dtr0_inc"]]
         for uv in (0x00, 0xFF, 0x54, 0xAA, 0x56):
@@ -748,6 +936,43 @@ def case_st(draw, wkeys, rokeys):
 
 
 @st.composite
+def bad_st(draw, wkeys):
+    """A value-level write of something the value cannot hold."""
+    keys = [k for k in wkeys if M.all_rows()[k]["kind"] in ("uint", "cct", "string", "fixed", "temp")]
+    key = draw(st.sampled_from(keys))
+    row = M.all_rows()[key]
+    w, kind = row["width"], row["kind"]
+    listed = st.sampled_from(bad_values_for(row, 1))
+    if kind == "string":
+        ascii_ = st.characters(min_codepoint=1, max_codepoint=127)
+        spec = draw(st.one_of(
+            listed,
+            st.text(ascii_, min_size=w + 1, max_size=w + 40).map(lambda t: ["str", t]),
+            st.tuples(st.text(ascii_, max_size=w - 1), st.characters(min_codepoint=0x80, max_codepoint=0x2FFF, exclude_categories=["Cs"]),
+                      st.text(ascii_, max_size=w - 1)).map(lambda t: ["str", (t[0] + t[1] + t[2])[:max(len(t[0]) + 1, w)]]),
+            st.integers(-300, 300).map(lambda n: ["int", n]),
+            st.binary(max_size=w).map(lambda b: ["bytes", b.hex()])))
+    elif kind in ("uint", "cct"):
+        lo, hi = number_range(row)
+        spec = draw(st.one_of(
+            listed,
+            st.integers(1, 1 << 70).map(lambda d: ["int", hi + d]), st.integers(1, 1 << 70).map(lambda d: ["int", lo - d]),
+            st.integers(1, 300).map(lambda d: ["int", hi + d]), st.integers(1, 300).map(lambda d: ["int", lo - d]),
+            st.floats(allow_nan=False, allow_infinity=False, width=32).map(lambda x: ["float", x]),
+            st.text(st.characters(min_codepoint=0x20, max_codepoint=0x7E), max_size=6).filter(
+                lambda t: t not in ("MASK", "TMASK")).map(lambda t: ["str", t])))
+    else:
+        spec = draw(listed)
+    if bad_category(row, spec) is None:
+        spec = draw(listed)
+    fl = dict(ignore_feedback=draw(st.sampled_from([False, False, True])),
+              force_unlock=draw(st.sampled_from([False, False, True])) and 2 not in row["locs"])
+    return _case(key, None, addr=draw(st.sampled_from(ADDRS)), short=draw(st.integers(0, 63)),
+                 lock=draw(st.sampled_from(LOCKS)), mode="badvalue", value=spec,
+                 image=draw(st.sampled_from([["prng", 1], ["prng", 2], "ff", "00", "ramp"])), spell=draw(_SPELL_ST), **fl)
+
+
+@st.composite
 def inter_st(draw, wkeys, rokeys):
     """Two or three writes in flight: the first drawn freely, the others mostly of the same value class with other data,
     another unit image, address and lock byte; plus the order in which they advance."""
@@ -788,6 +1013,8 @@ def _shard_hyp(arg):
                classify=lambda c: ["hyp"] + features(c), extra_rounds_budget_s=15.0)
     hyp.search(inter_st(wkeys, rokeys), run_case, res, max(1, n // 6), seed + 3, ID, nontrivial=is_nontrivial,
                classify=lambda c: ["hyp:interleaved"] + features(c), extra_rounds_budget_s=15.0)
+    hyp.search(bad_st(wkeys), run_case, res, max(1, n // 10), seed + 5, ID, nontrivial=is_nontrivial,
+               classify=lambda c: ["hyp:unstorable-value"] + features(c))
     return res
 
 
